@@ -1386,3 +1386,474 @@ Example C01_lostlog_refuted :
   get (run C08_lostlog.c0 C08_lostlog.prog) [1] = None /\
   spec_get (acked (init C08_lostlog.c0) C08_lostlog.prog) [1] = Some [10].
 Proof. vm_compute. repeat split; reflexivity. Qed.
+
+(* ------------------------------------------------------------------------------------ *)
+(* Part F: the SSTables of runs without a reopen (ssts_agree)                              *)
+(* ------------------------------------------------------------------------------------ *)
+
+Definition key_asc (l : list sentry) : Prop :=
+  StronglySorted (fun a b => bcmp (sk a) (sk b) = Lt) l.
+
+(* a key's version in a later table is not older than its version in an earlier table *)
+Definition table_le (t1 t2 : list sentry) : Prop :=
+  forall x y, In x t1 -> In y t2 -> sk x = sk y -> sseq x <= sseq y.
+Definition recency (tabs : list (list sentry)) : Prop := StronglySorted table_le tabs.
+
+(* --- collect: one version per key, the newest --- *)
+
+Definition kdesc (a b : sentry) : Prop := bcmp (sk b) (sk a) = Lt.
+
+Record CI (acc : list sentry) (done : list mentry) : Prop := mkCI {
+  ci_desc : StronglySorted kdesc acc;
+  ci_from : forall a, In a acc -> exists e, In e done /\ a = to_sentry e;
+  ci_new : forall a e, In a acc -> In e done -> mk e = sk a -> mseq e <= sseq a;
+  ci_head : forall e, In e done -> exists a acc', acc = a :: acc' /\ bcmp (mk e) (sk a) <> Gt
+}.
+
+Lemma ngt_cases : forall a b, bcmp a b <> Gt -> a = b \/ bcmp a b = Lt.
+Proof.
+  intros a b H. destruct (bcmp a b) eqn:C; [left; apply bcmp_eq; exact C|right; reflexivity|congruence].
+Qed.
+
+Lemma ele_key_ngt : forall a b, ele a b -> bcmp (mk a) (mk b) <> Gt.
+Proof.
+  intros a b H. apply ele_iff in H. destruct H as [H|[H _]]; [congruence|].
+  rewrite H, bcmp_refl. discriminate.
+Qed.
+
+Lemma collect_aux_CI : forall r done acc,
+  StronglySorted ele (done ++ r) -> CI acc done ->
+  exists accF, collect_aux acc r = rev accF /\ CI accF (done ++ r).
+Proof.
+  induction r as [|x r IH]; intros done acc Hs C.
+  - exists acc. rewrite app_nil_r. split; [reflexivity|exact C].
+  - assert (Hdx : forall e, In e done -> ele e x).
+    { apply SS_app in Hs. destruct Hs as (_ & _ & H3). intros e He. apply H3; [exact He|left; reflexivity]. }
+    replace (done ++ x :: r) with ((done ++ [x]) ++ r) in * by (rewrite <- app_assoc; reflexivity).
+    cbn [collect_aux]. destruct acc as [|lst acc0].
+    + (* first entry *)
+      apply IH; [exact Hs|].
+      assert (Hd : forall e, In e done -> False).
+      { intros e He. destruct (ci_head _ _ C e He) as (a & acc' & E & _). discriminate. }
+      constructor.
+      * repeat constructor.
+      * intros a [<-|[]]. exists x. split; [apply in_or_app; right; left; reflexivity|reflexivity].
+      * intros a e [<-|[]] He _. apply in_app_or in He. destruct He as [He|[<-|[]]].
+        -- destruct (Hd e He).
+        -- cbn [to_sentry sseq]. lia.
+      * intros e He. apply in_app_or in He. destruct He as [He|[<-|[]]]; [destruct (Hd e He)|].
+        eexists _, _. split; [reflexivity|]. cbn [to_sentry sk]. rewrite bcmp_refl. discriminate.
+    + assert (Hle : bcmp (sk lst) (mk x) <> Gt).
+      { destruct (ci_from _ _ C lst (or_introl eq_refl)) as (e0 & He0 & ->).
+        cbn [to_sentry sk]. apply ele_key_ngt. apply Hdx. exact He0. }
+      pose proof (ci_desc _ _ C) as Hdesc. inversion Hdesc as [|? ? Hdesc0 Hf0]; subst.
+      rewrite Forall_forall in Hf0. unfold kdesc in Hf0.
+      destruct (beq (sk lst) (mk x)) eqn:B.
+      * apply beq_true_iff in B.
+        assert (Hx0 : forall a, In a acc0 -> mk x <> sk a).
+        { intros a Ha E. specialize (Hf0 a Ha). rewrite <- E, B in Hf0.
+          exact (bcmp_lt_irrefl _ Hf0). }
+        destruct (sseq lst <? mseq x) eqn:L.
+        -- (* the new entry replaces the candidate *)
+           apply IH; [exact Hs|]. constructor.
+           ++ constructor; [exact Hdesc0|]. rewrite Forall_forall. intros b Hb. unfold kdesc.
+              cbn [to_sentry sk]. rewrite <- B. apply Hf0. exact Hb.
+           ++ intros a [<-|Ha].
+              ** exists x. split; [apply in_or_app; right; left; reflexivity|reflexivity].
+              ** destruct (ci_from _ _ C a (or_intror Ha)) as (e & He & ->).
+                 exists e. split; [apply in_or_app; left; exact He|reflexivity].
+           ++ intros a e Ha He Hk. apply in_app_or in He. destruct Ha as [<-|Ha].
+              ** cbn [to_sentry sk sseq] in *. destruct He as [He|[<-|[]]]; [|lia].
+                 pose proof (ci_new _ _ C lst e (or_introl eq_refl) He) as Hn.
+                 rewrite B in Hn. specialize (Hn Hk). lia.
+              ** destruct He as [He|[<-|[]]].
+                 --- exact (ci_new _ _ C a e (or_intror Ha) He Hk).
+                 --- destruct (Hx0 a Ha Hk).
+           ++ intros e He. apply in_app_or in He. eexists _, _. split; [reflexivity|].
+              cbn [to_sentry sk]. destruct He as [He|[<-|[]]].
+              ** destruct (ci_head _ _ C e He) as (a & acc' & E & Hn). injection E as <- <-.
+                 rewrite <- B. exact Hn.
+              ** rewrite bcmp_refl. discriminate.
+        -- (* the candidate stays *)
+           apply IH; [exact Hs|]. constructor.
+           ++ exact Hdesc.
+           ++ intros a Ha. destruct (ci_from _ _ C a Ha) as (e & He & ->).
+              exists e. split; [apply in_or_app; left; exact He|reflexivity].
+           ++ intros a e Ha He Hk. apply in_app_or in He. destruct He as [He|[<-|[]]].
+              ** exact (ci_new _ _ C a e Ha He Hk).
+              ** destruct Ha as [<-|Ha]; [lia|]. destruct (Hx0 a Ha Hk).
+           ++ intros e He. apply in_app_or in He. eexists _, _. split; [reflexivity|].
+              destruct He as [He|[<-|[]]].
+              ** destruct (ci_head _ _ C e He) as (a & acc' & E & Hn). injection E as <- <-.
+                 exact Hn.
+              ** rewrite B, bcmp_refl. discriminate.
+      * (* a new key *)
+        assert (Hlt : bcmp (sk lst) (mk x) = Lt).
+        { destruct (ngt_cases _ _ Hle) as [E|E]; [|exact E].
+          rewrite E, beq_refl in B. discriminate. }
+        assert (Hall : forall b, In b (lst :: acc0) -> bcmp (sk b) (mk x) = Lt).
+        { intros b [<-|Hb]; [exact Hlt|]. eapply bcmp_lt_trans; [apply Hf0; exact Hb|exact Hlt]. }
+        apply IH; [exact Hs|]. constructor.
+        -- constructor; [exact Hdesc|]. rewrite Forall_forall. exact Hall.
+        -- intros a [<-|Ha].
+           ++ exists x. split; [apply in_or_app; right; left; reflexivity|reflexivity].
+           ++ destruct (ci_from _ _ C a Ha) as (e & He & ->).
+              exists e. split; [apply in_or_app; left; exact He|reflexivity].
+        -- intros a e Ha He Hk. apply in_app_or in He. destruct Ha as [<-|Ha].
+           ++ cbn [to_sentry sk sseq] in *. destruct He as [He|[<-|[]]]; [|lia].
+              exfalso. destruct (ci_head _ _ C e He) as (a & acc' & E & Hn). injection E as <- <-.
+              rewrite Hk in Hn. apply Hn. apply bcmp_gt_lt. exact Hlt.
+           ++ destruct He as [He|[<-|[]]].
+              ** exact (ci_new _ _ C a e Ha He Hk).
+              ** exfalso. specialize (Hall a Ha). rewrite <- Hk in Hall.
+                 exact (bcmp_lt_irrefl _ Hall).
+        -- intros e He. apply in_app_or in He. eexists _, _. split; [reflexivity|].
+           cbn [to_sentry sk]. destruct He as [He|[<-|[]]].
+           ++ destruct (ci_head _ _ C e He) as (a & acc' & E & Hn). injection E as <- <-.
+              destruct (ngt_cases _ _ Hn) as [E|E].
+              ** rewrite E, Hlt. discriminate.
+              ** rewrite (bcmp_lt_trans _ _ _ E Hlt). discriminate.
+           ++ rewrite bcmp_refl. discriminate.
+Qed.
+
+Lemma kdesc_rev_asc : forall acc, StronglySorted kdesc acc -> key_asc (rev acc).
+Proof.
+  intros acc H. induction H as [|a acc Hs IH Hf]; [constructor|].
+  cbn [rev]. apply SS_app. split; [exact IH|]. split; [repeat constructor|].
+  intros b c Hb [<-|[]]. apply in_rev in Hb. rewrite Forall_forall in Hf. exact (Hf b Hb).
+Qed.
+
+(* the collection loop on a sorted table: keys strictly ascending, every entry comes from
+   the table and is the newest version of its key *)
+Lemma collect_spec : forall l, sorted l ->
+  key_asc (collect l) /\
+  (forall y, In y (collect l) -> exists e, In e l /\ y = to_sentry e) /\
+  (forall y e, In y (collect l) -> In e l -> mk e = sk y -> mseq e <= sseq y).
+Proof.
+  intros l Hs. apply sorted_strong in Hs.
+  destruct (collect_aux_CI l [] [] Hs) as (accF & E & C).
+  { constructor; [constructor|intros a []|intros a e []|intros e []]. }
+  unfold collect. rewrite E. cbn [app] in C. split; [|split].
+  - apply kdesc_rev_asc. exact (ci_desc _ _ C).
+  - intros y Hy. apply in_rev in Hy. exact (ci_from _ _ C y Hy).
+  - intros y e Hy He. apply in_rev in Hy. exact (ci_new _ _ C y e Hy He).
+Qed.
+
+(* --- the invariant relating the tables T to the not yet flushed layers U (oldest first) --- *)
+
+Definition seg_le (l1 l2 : list mentry) : Prop :=
+  forall e1 e2, In e1 l1 -> In e2 l2 -> mseq e1 <= mseq e2.
+
+Record SInv (T : list (list sentry)) (U : list memtable) (bound : N) : Prop := mkSInv {
+  s_asc : Forall key_asc T;
+  s_rec : recency T;
+  (* a layer that has the key has a version at least as new as any table's *)
+  s_cover : forall l x m e, In l T -> In x l -> In m U -> In e (mt_entries m) -> mk e = sk x ->
+            exists e', In e' (mt_entries m) /\ mk e' = sk x /\ sseq x <= mseq e';
+  s_tbound : forall l x, In l T -> In x l -> sseq x < bound;
+  s_order : StronglySorted seg_le (map mt_entries U)
+}.
+
+Lemma SInv_drop : forall T m U b, SInv T (m :: U) b -> SInv T U b.
+Proof.
+  intros T m U b S. constructor.
+  - exact (s_asc _ _ _ S).
+  - exact (s_rec _ _ _ S).
+  - intros l x m' e Hl Hx Hm'. apply (s_cover _ _ _ S l x m' e Hl Hx). right. exact Hm'.
+  - exact (s_tbound _ _ _ S).
+  - pose proof (s_order _ _ _ S) as O. cbn [map] in O. inversion O; assumption.
+Qed.
+
+Lemma flushed_entries_spec : forall m,
+  sorted (mt_entries m) -> mt_iter_entries m = mt_entries m ->
+  key_asc (flushed_entries m) /\
+  (forall y, In y (flushed_entries m) -> exists e, In e (mt_entries m) /\ y = to_sentry e) /\
+  (forall y e, In y (flushed_entries m) -> In e (mt_entries m) -> mk e = sk y -> mseq e <= sseq y).
+Proof.
+  intros m Hs Hi. unfold flushed_entries. destruct (mt_size m =? 0).
+  - split; [constructor|]. split; [intros y []|intros y e []].
+  - rewrite Hi. apply collect_spec. exact Hs.
+Qed.
+
+(* writing the table of the oldest unflushed layer (which may stay in the pool) *)
+Lemma SInv_flush_keep : forall T m U b,
+  SInv T (m :: U) b ->
+  sorted (mt_entries m) -> mt_iter_entries m = mt_entries m ->
+  (forall e, In e (mt_entries m) -> mseq e < b) ->
+  SInv (T ++ opt_table (flushed_entries m)) (m :: U) b.
+Proof.
+  intros T m U b S Hs Hi Hb. unfold opt_table.
+  destruct (nonnil (flushed_entries m)); [|rewrite app_nil_r; exact S].
+  destruct (flushed_entries_spec m Hs Hi) as (Y1 & Y2 & Y3).
+  set (Y := flushed_entries m) in *. clearbody Y.
+  constructor.
+  - apply Forall_app. split; [exact (s_asc _ _ _ S)|]. repeat constructor. exact Y1.
+  - apply SS_app. split; [exact (s_rec _ _ _ S)|]. split; [repeat constructor|].
+    intros l l' Hl [<-|[]]. intros x y Hx Hy Hk.
+    destruct (Y2 y Hy) as (ey & Hey & Ey).
+    assert (Hkey : mk ey = sk x) by (rewrite Hk, Ey; reflexivity).
+    destruct (s_cover _ _ _ S l x m ey Hl Hx (or_introl eq_refl) Hey Hkey) as (e' & He' & Hk' & Hle).
+    assert (Hk'' : mk e' = sk y) by congruence.
+    pose proof (Y3 y e' Hy He' Hk''). lia.
+  - intros l x m' e Hl Hx Hm' He Hk. apply in_app_or in Hl. destruct Hl as [Hl|[<-|[]]].
+    + exact (s_cover _ _ _ S l x m' e Hl Hx Hm' He Hk).
+    + destruct (Y2 x Hx) as (ex & Hex & ->). cbn [to_sentry sk sseq] in *.
+      destruct Hm' as [<-|Hm'].
+      * exists ex. split; [exact Hex|]. split; [reflexivity|lia].
+      * exists e. split; [exact He|]. split; [exact Hk|].
+        pose proof (s_order _ _ _ S) as O. cbn [map] in O. inversion O as [|? ? _ Of]; subst.
+        rewrite Forall_forall in Of. apply (Of (mt_entries m') (in_map _ _ _ Hm') ex e Hex He).
+  - intros l x Hl Hx. apply in_app_or in Hl. destruct Hl as [Hl|[<-|[]]].
+    + exact (s_tbound _ _ _ S l x Hl Hx).
+    + destruct (Y2 x Hx) as (ex & Hex & ->). cbn [to_sentry sseq]. exact (Hb ex Hex).
+  - exact (s_order _ _ _ S).
+Qed.
+
+Lemma SInv_flush_all : forall ps T a b,
+  SInv T (ps ++ [a]) b ->
+  (forall m, In m ps -> sorted (mt_entries m) /\ mt_iter_entries m = mt_entries m /\
+                        forall e, In e (mt_entries m) -> mseq e < b) ->
+  SInv (T ++ flat_map (fun m => opt_table (flushed_entries m)) ps) [a] b.
+Proof.
+  induction ps as [|p ps IH]; intros T a b S H.
+  - cbn [flat_map]. rewrite app_nil_r. exact S.
+  - cbn [flat_map]. rewrite app_assoc. apply IH.
+    + destruct (H p (or_introl eq_refl)) as (H1 & H2 & H3).
+      cbn [app] in S. eapply SInv_drop. apply SInv_flush_keep; eassumption.
+    + intros m Hm. apply H. right. exact Hm.
+Qed.
+
+(* a write: every new entry carries the number [b], the bound moves to b + 1 *)
+Lemma SInv_write : forall T P a a' news b,
+  SInv T (P ++ [a]) b ->
+  (forall e, In e (mt_entries a') <-> In e (mt_entries a) \/ In e news) ->
+  (forall e, In e news -> mseq e = b) ->
+  (forall m e, In m P -> In e (mt_entries m) -> mseq e < b) ->
+  SInv T (P ++ [a']) (b + 1).
+Proof.
+  intros T P a a' news b S Ha' Hn Hp. constructor.
+  - exact (s_asc _ _ _ S).
+  - exact (s_rec _ _ _ S).
+  - intros l x m e Hl Hx Hm He Hk. apply in_app_or in Hm. destruct Hm as [Hm|[<-|[]]].
+    + apply (s_cover _ _ _ S l x m e Hl Hx); [apply in_or_app; left; exact Hm|exact He|exact Hk].
+    + apply Ha' in He. destruct He as [He|He].
+      * destruct (s_cover _ _ _ S l x a e Hl Hx) as (e' & He' & Hk' & Hle);
+          [apply in_or_app; right; left; reflexivity|exact He|exact Hk|].
+        exists e'. split; [apply Ha'; left; exact He'|]. split; assumption.
+      * exists e. split; [apply Ha'; right; exact He|]. split; [exact Hk|].
+        rewrite (Hn e He). pose proof (s_tbound _ _ _ S l x Hl Hx). lia.
+  - intros l x Hl Hx. pose proof (s_tbound _ _ _ S l x Hl Hx). lia.
+  - pose proof (s_order _ _ _ S) as O. rewrite map_app in *. cbn [map] in *.
+    apply SS_app in O. destruct O as (O1 & _ & O3). apply SS_app.
+    split; [exact O1|]. split; [repeat constructor|].
+    intros L1 L2 HL1 [<-|[]]. intros e1 e2 He1 He2. apply Ha' in He2. destruct He2 as [He2|He2].
+    + exact (O3 L1 (mt_entries a) HL1 (or_introl eq_refl) e1 e2 He1 He2).
+    + rewrite (Hn e2 He2). apply in_map_iff in HL1. destruct HL1 as (m & <- & Hm).
+      pose proof (Hp m e1 Hm He1). lia.
+Qed.
+
+(* scheduleFlush *)
+Lemma SInv_schedule : forall T P a b,
+  SInv T (P ++ [a]) b -> SInv T ((P ++ [mt_set_imm a]) ++ [mt_empty]) b.
+Proof.
+  intros T P a b S. constructor.
+  - exact (s_asc _ _ _ S).
+  - exact (s_rec _ _ _ S).
+  - intros l x m e Hl Hx Hm He Hk. apply in_app_or in Hm. destruct Hm as [Hm|[<-|[]]].
+    + apply in_app_or in Hm. destruct Hm as [Hm|[<-|[]]].
+      * apply (s_cover _ _ _ S l x m e Hl Hx); [apply in_or_app; left; exact Hm|exact He|exact Hk].
+      * cbn [mt_set_imm mt_entries] in *.
+        apply (s_cover _ _ _ S l x a e Hl Hx); [apply in_or_app; right; left; reflexivity|exact He|exact Hk].
+    + destruct He.
+  - exact (s_tbound _ _ _ S).
+  - pose proof (s_order _ _ _ S) as O. rewrite !map_app in *. cbn [map mt_set_imm mt_entries] in *.
+    apply SS_app. split; [exact O|]. split; [repeat constructor|].
+    intros L1 L2 _ [<-|[]]. intros e1 e2 _ [].
+Qed.
+
+(* --- state level --- *)
+
+Definition tabs_of (s : st) : list (list sentry) := map s_entries (ssts s).
+
+Record InvS (s : st) : Prop := mkInvS {
+  is_sinv : SInv (tabs_of s) (pending s ++ [active s]) (wal_next s);
+  is_imm : Forall (fun m => mt_imm m = true) (pending s);
+  is_seq : seq_inv (active s)
+}.
+
+Lemma InvS_init : forall c, InvS (init c).
+Proof.
+  intros c. constructor; unfold init, tabs_of; proj; cbn [map app].
+  - constructor.
+    + constructor.
+    + constructor.
+    + intros l x m e [].
+    + intros l x [].
+    + repeat constructor.
+  - constructor.
+  - constructor.
+Qed.
+
+Lemma layer_seq_bound : forall s h m e,
+  Inv s h -> In m (active s :: imms s) -> In e (mt_entries m) -> mseq e < wal_next s.
+Proof.
+  intros s h m e I Hm He. pose proof (layer_entries_in_hist s h m e I Hm He) as Hin.
+  apply in_entries in Hin. destruct Hin as (p & o & Hp & _ & ->). rewrite mseq_bop_mentry.
+  pose proof (inv_bound s h I) as B. rewrite Forall_forall in B. apply B. apply in_map. exact Hp.
+Qed.
+
+Lemma layer_sorted : forall s h m,
+  Inv s h -> In m (active s :: imms s) -> sorted (mt_entries m).
+Proof.
+  intros s h m I Hm. destruct (inv_segs s h I) as (segsI & segA & HF & HA & _).
+  destruct Hm as [<-|Hm].
+  - rewrite HA. apply build_sorted.
+  - destruct (Forall2_in_l _ _ _ _ _ m HF Hm) as (seg & _ & Hb). rewrite Hb. apply build_sorted.
+Qed.
+
+Lemma iter_imm : forall m, mt_imm m = true -> mt_iter_entries m = mt_entries m.
+Proof.
+  intros m H. unfold mt_iter_entries, mt_snapshot. rewrite H. apply filter_all.
+  intros x _. reflexivity.
+Qed.
+
+Lemma MaxSeq_small : MaxSeq < 2 ^ 64 - 1.
+Proof. reflexivity. Qed.
+
+Lemma add_all_seq_inv : forall q ops s,
+  q < 2 ^ 64 - 1 -> seq_inv (active s) -> seq_inv (active (add_all q ops s)).
+Proof.
+  intros q ops. induction ops as [|o r IH]; intros s Hq H; [exact H|].
+  change (add_all q (o :: r) s) with (add_all q r (set_last (pool_add s (bop_mentry q o)) q)).
+  apply IH; [exact Hq|].
+  change (active (set_last (pool_add s (bop_mentry q o)) q)) with (mt_add (active s) (bop_mentry q o)).
+  apply mt_add_seq_inv; [|exact H]. unfold seq_ok. rewrite mseq_bop_mentry. exact Hq.
+Qed.
+
+Lemma build_from_in : forall l0 es x, In x (build_from l0 es) <-> In x l0 \/ In x es.
+Proof.
+  intros l0 es x. pose proof (build_from_perm es l0) as P. split.
+  - intros H. apply (Permutation_in _ P) in H. apply in_app_or in H. tauto.
+  - intros H. apply (Permutation_in _ (Permutation_sym P)). apply in_or_app. tauto.
+Qed.
+
+Lemma InvS_write_state : forall s h ops,
+  Inv s h -> InvS s -> (MaxSeq <=? wal_next s) = false -> InvS (write_state s ops).
+Proof.
+  intros s h ops I S M.
+  pose proof (add_all_spec (wal_next s) ops
+    (upd_wal s (wal_next s + 1)
+       (log_append (wal_files s) (map (bop_entry (wal_next s)) ops)))) as A.
+  pose proof (add_all_seq_inv (wal_next s) ops
+    (upd_wal s (wal_next s + 1)
+       (log_append (wal_files s) (map (bop_entry (wal_next s)) ops)))) as Q.
+  cbn zeta in A. fold (write_state s ops) in A, Q.
+  set (s2 := write_state s ops) in *. clearbody s2. unfold upd_wal in A, Q.
+  revert A Q. proj. intros (A1 & A2 & A3 & A4 & A5 & A6 & A7 & A8 & A9 & A10 & A11) Q.
+  destruct (A11 (inv_active_mut s h I)) as [_ A12].
+  constructor.
+  - unfold tabs_of. rewrite A6, A5, A2.
+    apply (SInv_write _ _ (active s) _ (map (bop_mentry (wal_next s)) ops)).
+    + exact (is_sinv s S).
+    + intros e. rewrite A12. apply build_from_in.
+    + intros e He. apply in_map_iff in He. destruct He as (o & <- & _). apply mseq_bop_mentry.
+    + intros m e Hm He. apply (layer_seq_bound s h m e I); [|exact He].
+      right. apply (inv_pending s h I). exact Hm.
+  - rewrite A5. exact (is_imm s S).
+  - apply Q; [|exact (is_seq s S)]. pose proof MaxSeq_small. apply N.leb_gt in M. lia.
+Qed.
+
+Lemma InvS_maybe_schedule : forall s, InvS s -> InvS (maybe_schedule s).
+Proof.
+  intros s S. unfold maybe_schedule. destruct (flush_pending s); [|exact S].
+  constructor; unfold schedule_flush, tabs_of; proj.
+  - apply SInv_schedule. exact (is_sinv s S).
+  - apply Forall_app. split; [exact (is_imm s S)|]. repeat constructor.
+  - constructor.
+Qed.
+
+Lemma InvS_apply_batch : forall s h ops,
+  Inv s h -> InvS s -> InvS (fst (apply_batch s ops)).
+Proof.
+  intros s h ops I S. destruct ops as [|o r]; [exact S|].
+  destruct (MaxSeq <=? wal_next s) eqn:M.
+  - rewrite apply_batch_overflow by (assumption || discriminate). exact S.
+  - rewrite apply_batch_ok by (assumption || discriminate). cbn [fst].
+    apply InvS_maybe_schedule. eapply InvS_write_state; eassumption.
+Qed.
+
+Lemma InvS_flush : forall s h, Inv s h -> InvS s -> InvS (flush s).
+Proof.
+  intros s h I S.
+  destruct (flush_spec s) as (_ & G2 & _ & _ & G5 & _ & _ & G8 & G9).
+  assert (Hlayer : forall m, In m (active s :: pending s) ->
+            sorted (mt_entries m) /\ mt_iter_entries m = mt_entries m /\
+            forall e, In e (mt_entries m) -> mseq e < wal_next s).
+  { intros m Hm.
+    assert (Hm' : In m (active s :: imms s)).
+    { destruct Hm as [<-|Hm]; [left; reflexivity|right; apply (inv_pending s h I); exact Hm]. }
+    split; [exact (layer_sorted s h m I Hm')|]. split.
+    - destruct Hm as [<-|Hm]; [apply iter_all; exact (is_seq s S)|].
+      apply iter_imm. pose proof (is_imm s S) as F. rewrite Forall_forall in F. exact (F m Hm).
+    - intros e He. exact (layer_seq_bound s h m e I Hm' He). }
+  constructor.
+  - unfold tabs_of. rewrite G2, G5, G8, G9. cbn [app].
+    pose proof (is_sinv s S) as SI. unfold tabs_of in SI. unfold flush_tabs.
+    destruct (pending s) as [|p ps] eqn:P.
+    + cbn [app] in SI. destruct (0 <? mt_size (active s)).
+      * cbn [flat_map]. rewrite app_nil_r.
+        destruct (Hlayer (active s) (or_introl eq_refl)) as (H1 & H2 & H3).
+        apply SInv_flush_keep; assumption.
+      * cbn [flat_map]. rewrite app_nil_r. exact SI.
+    + apply SInv_flush_all; [exact SI|]. intros m Hm. apply Hlayer. right. exact Hm.
+  - rewrite G8. constructor.
+  - rewrite G5. exact (is_seq s S).
+Qed.
+
+Lemma InvS_step : forall s h o, o <> OReopen -> Inv s h -> InvS s -> InvS (step s o).
+Proof.
+  intros s h o Ho I S. destruct o as [k v|k|ops|ops|ops| | |k]; cbn [step]; try exact S.
+  - rewrite put_as_batch. eapply InvS_apply_batch; eassumption.
+  - rewrite del_as_batch. eapply InvS_apply_batch; eassumption.
+  - eapply InvS_apply_batch; eassumption.
+  - rewrite tx_commit_as_batch. eapply InvS_apply_batch; eassumption.
+  - eapply InvS_flush; eassumption.
+  - congruence.
+Qed.
+
+Lemma InvS_steps : forall ops s h,
+  Forall (fun o => o <> OReopen) ops -> Inv s h -> InvS s -> InvS (fold_left step ops s).
+Proof.
+  induction ops as [|o r IH]; intros s h F I S; [exact S|].
+  inversion F as [|? ? Ho Fr]; subst. cbn [fold_left].
+  apply (IH (step s o) (step_hist s o h) Fr).
+  - apply Inv_step. exact I.
+  - eapply InvS_step; eassumption.
+Qed.
+
+(* In a run without a reopen every SSTable is strictly ascending in key (one version per
+   key) and the tables, in list order, satisfy layer recency: the version of a key in a
+   later table is at least as new as in any earlier one. (Not strictly newer: flushing the
+   active table twice without writes in between produces two tables with the same
+   versions.) With a reopen the property fails, see ssts_agree_reopen_refuted. *)
+Theorem ssts_agree : forall c ops,
+  Forall (fun o => o <> OReopen) ops ->
+  Forall key_asc (tabs_of (run c ops)) /\ recency (tabs_of (run c ops)).
+Proof.
+  intros c ops F.
+  pose proof (InvS_steps ops (init c) [] F (Inv_init c) (InvS_init c)) as S.
+  fold (run c ops) in S. split.
+  - exact (s_asc _ _ _ (is_sinv _ S)).
+  - exact (s_rec _ _ _ (is_sinv _ S)).
+Qed.
+
+(* every entry of a flushed table is the newest version of its key in the memtable *)
+Lemma flushed_newest : forall s m, reachable s -> In m (active s :: pending s) ->
+  mt_iter_entries m = mt_entries m ->
+  forall y e, In y (flushed_entries m) -> In e (mt_entries m) -> mk e = sk y -> mseq e <= sseq y.
+Proof.
+  intros s m R Hm Hi. destruct (reachable_Inv s R) as (h & I).
+  assert (Hm' : In m (active s :: imms s)).
+  { destruct Hm as [<-|Hm]; [left; reflexivity|right; apply (inv_pending s h I); exact Hm]. }
+  exact (proj2 (proj2 (flushed_entries_spec m (layer_sorted s h m I Hm') Hi))).
+Qed.
